@@ -9,6 +9,7 @@ package message
 // normal build.
 
 //@ property C04 roots readLPBytes, (*header).decode, (*PubackMessage).Decode, (*ConnackMessage).Decode, (*DisconnectMessage).Decode, (*SubackMessage).Decode, (*PublishMessage).Decode, (*SubscribeMessage).Decode, (*UnsubscribeMessage).Decode, (*ConnectMessage).Decode
+//@ property C05 roots readLPBytes, (*header).decode, (*PubackMessage).Decode, (*ConnackMessage).Decode, (*DisconnectMessage).Decode, (*SubackMessage).Decode, (*PublishMessage).Decode, (*SubscribeMessage).Decode, (*UnsubscribeMessage).Decode, (*ConnectMessage).Decode
 //@ property C03 roots (*header).encode, (*header).msglen, writeLPBytes, (*header).SetRemainingLength, (*header).PacketID, (*header).SetPacketID, (*header).SetType, (*PubackMessage).Len, (*PubackMessage).Encode, (*PubackMessage).Decode, (*PubackMessage).msglen, (*ConnackMessage).Len, (*ConnackMessage).Encode, (*ConnackMessage).Decode, (*DisconnectMessage).Decode, (*SubackMessage).Decode, (*DisconnectMessage).Encode, (*header).Len, (*SubackMessage).Len, (*SubackMessage).Encode, (*SubackMessage).Decode, (*SubackMessage).AddReturnCodes, (*SubackMessage).AddReturnCode, (*PublishMessage).Len, (*PublishMessage).Encode, (*PublishMessage).Decode, (*PublishMessage).QoS, (*PublishMessage).SetQoS, (*PublishMessage).Retain, (*PublishMessage).SetRetain, (*PublishMessage).Dup, (*PublishMessage).SetDup, (*PublishMessage).SetTopic, (*PublishMessage).SetPayload, (*PublishMessage).Topic, (*PublishMessage).Payload, (*PublishMessage).msglen, (*SubscribeMessage).msglen, (*SubscribeMessage).Len, (*SubscribeMessage).Encode, (*SubscribeMessage).Decode, (*UnsubscribeMessage).msglen, (*UnsubscribeMessage).Len, (*UnsubscribeMessage).Encode, (*UnsubscribeMessage).Decode, (*ConnectMessage).Decode, (*ConnectMessage).Len, (*ConnectMessage).Encode, (*ConnectMessage).msglen, (*ConnectMessage).encodeMessage
 
 // ---------------------------------------------------------------- spec functions
